@@ -5,12 +5,18 @@ META = {
     design_ref="DESIGN.md 3/C13",
     note="Trusted: Kani/CBMC/CaDiCaL; the bitvec-free deku reader model (validated natively against real deku); oracle written from Annex 10 in harness/src/refs.rs. Metric altitudes (M=1) outside.",
     technique=TECH + "; differential against an independent reference decoder/encoder"),
+ "C17": dict(
+    text="Inductive step decided by the solver: from ANY UI state satisfying the selection invariant (table sizes 0..=3, all flag values) one arbitrary event (every KeyCode variant, any char, Tick of any width, Error) through the real update()/next()/previous()/home() sliced verbatim from main.rs: no panic, invariant preserved, quit/search/sort/width flags change only as documented. Plus the initial state and all 4-event histories from it.",
+    design_ref="DESIGN.md 3/C17",
+    note="Trusted: Kani/CBMC; the item slicer; API-subset models of crossterm/ratatui types and of the tokio MutexGuard (jet1090 itself cannot be compiled by Kani). build_table and the event task are outside.",
+    technique=TECH + "; one-step induction over a symbolic pre-state"),
  "C18": dict(
     text="Solver verdict over every t in [0, 604800e9) ns for since_gps_week_to_since_today (exact value and range) and every unix time in [GPS epoch, 2^34) for gps_week_in_s (boundary, at most a week before); overflow checks as in the release profile.",
     design_ref="DESIGN.md 3/C18",
     note="Trusted: Kani/CBMC/CaDiCaL. Oracle side uses fresh quotient variables with the division lemma. Unix times >= 2^34 s outside the bound.",
     technique=TECH),
 }
+REGISTERED = ["C13", "C17", "C18"]
 NOTES = "See DESIGN.md. Every check is `bin/check <ID> --tier quick|thorough`; exit 2 means undecided (cap hit, vacuity witness missed, or a counterexample that does not reproduce natively) and is never reported as success."
 NOT_APPLICABLE = [
  dict(property_id="C06", reason="smallest useful instance (two reports through the real decode_position with its BTreeMap state) exhausts 24-42 GB in CBMC's propositional reduction in three reductions; state is private and the logic inline, no smaller real unit exists (DESIGN 3/C06)"),
@@ -26,9 +32,9 @@ PENDING = {
  "C08": "check under construction", "C11": "check under construction", "C14": "check under construction",
  "C15": "check under construction", "C17": "check under construction",
 }
-import sys
-sys.path.insert(0, "/verif/bin")
+import sys, os
+sys.path.insert(0, os.path.join(os.path.dirname(os.path.dirname(os.path.abspath(__file__))), "bin"))
 import specs as _s
 for _p, _r in sorted(PENDING.items()):
-    if _p not in _s.SPECS:
+    if _p not in REGISTERED:
         NOT_APPLICABLE.append(dict(property_id=_p, reason="not yet registered: " + _r))
